@@ -285,8 +285,35 @@ impl Network for Net {
             Ok(())
         });
         let n = pkts.len();
+        // the tx queues live in a HashMap (iteration order differs from process to process):
+        // re-interleave by source address so that a scenario seed replays exactly. Per-source
+        // order is kept, sources take turns, the first turn is drawn from the scenario's rng.
+        let mut by_src: std::collections::BTreeMap<(Vec<u8>, u16), std::collections::VecDeque<Packet>> =
+            Default::default();
         for p in pkts {
-            self.handle(buffers, p, now);
+            let a: std::net::SocketAddr = p.path.local_address.into();
+            let ip = match a.ip() {
+                std::net::IpAddr::V4(v) => v.octets().to_vec(),
+                std::net::IpAddr::V6(v) => v.octets().to_vec(),
+            };
+            by_src.entry((ip, a.port())).or_default().push_back(p);
+        }
+        let mut queues: Vec<_> = by_src.into_values().collect();
+        if queues.len() > 1 {
+            let k = (self.rng.next() % queues.len() as u64) as usize;
+            queues.rotate_left(k);
+        }
+        loop {
+            let mut any = false;
+            for q in queues.iter_mut() {
+                if let Some(p) = q.pop_front() {
+                    any = true;
+                    self.handle(buffers, p, now);
+                }
+            }
+            if !any {
+                break;
+            }
         }
         n
     }
